@@ -22,6 +22,7 @@ type Clause struct {
 	Name  string // optional label "name: expr"
 	File  string
 	Line  int
+	Pkg   string // axioms: the package (short path) whose contract file declares it; "" = every package
 }
 
 type Contract struct {
@@ -33,6 +34,7 @@ type Contract struct {
 	Names          []*Clause
 	Invariants     map[int][]*Clause
 	Iterations     map[int][]*Clause
+	Variants       map[int]*Clause
 	Decreases      *Clause
 	Pure           bool
 	AssignsNothing bool
@@ -81,7 +83,21 @@ type ContractSet struct {
 	ParametricFiles []string
 	TypeInvs     []*TypeInv
 	ElemsNonNil  map[string]bool // type keys whose slice elements are never nil
+	ArgObserved  map[string]bool // function keys whose call operands are recorded as ghost state
 	typeInvByKey map[string][]*TypeInv
+}
+
+func (cs *ContractSet) argObserved(k string) bool {
+	if cs.ArgObserved[k] {
+		return true
+	}
+	if i := strings.Index(k, "["); i > 0 && strings.HasSuffix(k, "]") {
+		// generic instance: dsl.(VisitorWithContext[Node]).VisitChildren[...] is observed under its uninstantiated name
+		if j := strings.LastIndex(k, "["); j > 0 && cs.ArgObserved[k[:j]] {
+			return true
+		}
+	}
+	return false
 }
 
 type StructFact struct {
@@ -95,9 +111,9 @@ type TypeInv struct {
 	Clause   *Clause
 }
 
-var clauseKeywords = map[string]bool{"stable": true, "reads-model": true, "names": true, "iteration": true, "requires": true, "ensures": true, "invariant": true, "decreases": true, "property": true,
+var clauseKeywords = map[string]bool{"stable": true, "reads-model": true, "names": true, "iteration": true, "variant": true, "requires": true, "ensures": true, "invariant": true, "decreases": true, "property": true,
 	"pure": true, "assigns": true, "trusted": true, "noinline": true, "inline": true, "func": true, "sweep": true, "immutable": true, "spec": true,
-	"axiom": true, "flagset": true, "safeonly": true, "immutable-family": true, "method-pre": true, "entry": true, "type-invariant": true, "elems-nonnil": true, "callback-parametric": true, "json-hidden": true, "json-visible": true}
+	"axiom": true, "flagset": true, "safeonly": true, "immutable-family": true, "method-pre": true, "entry": true, "type-invariant": true, "elems-nonnil": true, "callback-parametric": true, "json-hidden": true, "json-visible": true, "pass-order": true, "observe-args": true}
 
 var contractRoot = "" // directory that contract file paths are relative to (repo or mirror)
 
@@ -313,6 +329,29 @@ func (w *World) parseContractFile(cs *ContractSet, file string) error {
 			case "decreases":
 				cur.Decreases = c
 			}
+		case "variant":
+			// variant n: expr  -- loop n terminates: expr is a non-negative integer at the head of every iteration that
+			// reaches a back edge, and strictly smaller when the back edge is taken
+			if cur == nil {
+				return fmt.Errorf("%s:%d: variant outside func", file, rl.line)
+			}
+			k := strings.Index(rest, ":")
+			if k < 0 {
+				return fmt.Errorf("%s:%d: variant needs 'n: expr'", file, rl.line)
+			}
+			n, err := strconv.Atoi(strings.TrimSpace(rest[:k]))
+			if err != nil {
+				return fmt.Errorf("%s:%d: bad loop ordinal", file, rl.line)
+			}
+			c, err := mk("variant", strings.TrimSpace(rest[k+1:]))
+			if err != nil {
+				return err
+			}
+			c.Loop = n
+			if cur.Variants == nil {
+				cur.Variants = map[int]*Clause{}
+			}
+			cur.Variants[n] = c
 		case "iteration":
 			// iteration n: expr  -- holds at the end of every iteration of loop n; old()/emitted() refer to the
 			// state at the beginning of that iteration
@@ -401,6 +440,21 @@ func (w *World) parseContractFile(cs *ContractSet, file string) error {
 			for _, f := range fs[2:] {
 				cs.StructFacts = append(cs.StructFacts, StructFact{Kind: kw, Prop: fs[1], Spec: f, File: file, Line: rl.line})
 			}
+		case "observe-args":
+			// observe-args <funcKey>... : record the operands of direct calls of these functions for lastArg(f, i)
+			if cs.ArgObserved == nil {
+				cs.ArgObserved = map[string]bool{}
+			}
+			for _, f := range strings.Fields(rest) {
+				cs.ArgObserved[f] = true
+			}
+		case "pass-order":
+			// pass-order Cxx pkg.Driver: pkg.A < pkg.B : the driver calls the functions of one slice literal in order,
+			// exactly once each, and A precedes B in it (a caller-history precondition of B, decided on the SSA)
+			if len(fs) != 6 || !strings.HasSuffix(fs[2], ":") || fs[4] != "<" {
+				return fmt.Errorf("%s:%d: pass-order wants 'Cxx pkg.Driver: pkg.A < pkg.B'", file, rl.line)
+			}
+			cs.StructFacts = append(cs.StructFacts, StructFact{Kind: kw, Prop: fs[1], Spec: strings.TrimSuffix(fs[2], ":") + ": " + fs[3] + " < " + fs[5], File: file, Line: rl.line})
 		case "elems-nonnil":
 			if cs.ElemsNonNil == nil {
 				cs.ElemsNonNil = map[string]bool{}
@@ -455,6 +509,7 @@ func (w *World) parseContractFile(cs *ContractSet, file string) error {
 			if err != nil {
 				return err
 			}
+			c.Pkg = pkgShort // an axiom of a package contract file speaks about, and is assumed in, that package only
 			cs.Axioms = append(cs.Axioms, c)
 		case "spec":
 			// spec func name(a T, b U) R [= expr]
